@@ -929,14 +929,14 @@ func c19ViewRaw(view any) (string, []byte, bool) {
 }
 
 func runC19(c *fw.Ctx) {
-	per := c.Pick(300, 30000)
+	per := c.Pick(300, 100000)
 	for _, kind := range c19Kinds {
 		kind := kind
 		c.Cases(per, func(i int) string { return fmt.Sprintf("%s|i=%d", kind, i) }, func(i int, k *fw.K) {
 			c19CheckFile(k, kind, c19Gen(kind, k, i, c.Thorough()))
 		})
 	}
-	nsum := c.Pick(40, 4000)
+	nsum := c.Pick(40, 12000)
 	c.Cases(8*nsum, func(i int) string {
 		return fmt.Sprintf("summary|dg1=%v dg11=%v dg12=%v|i=%d", i%8&1 != 0, i%8&2 != 0, i%8&4 != 0, i/8)
 	}, func(i int, k *fw.K) { c19Summary(k, i%8, i/8) })
